@@ -9,8 +9,13 @@ from hv import Case
 from kern2 import Snap, fr_tok
 
 SPEC = {
-    "lean_modules": ["Honeycomb.Props.C14", "Honeycomb.Props.C14b", "Honeycomb.Props.C14c", "Honeycomb.Props.C14d"],
-    "required_theorems": ["C14_insertVertices_preserves_WF", "C14_insertVertex_preserves_WF",
+    "lean_modules": ["Honeycomb.Props.C14", "Honeycomb.Props.C14b", "Honeycomb.Props.C14c", "Honeycomb.Props.C14d", "Honeycomb.Props.C14Gen"],
+    # Gen/VertexInsertion.lean is re-translated from honeycomb-kernels/src/cell_insertion/vertices.rs and dim2/links/*.rs before every build
+    "gen": ["vins"],
+    "required_theorems": [
+        # Props/C14Gen.lean: the translated single-vertex kernel (validation prefix, both arms, the written value) IS the model's
+        "C14_gen_isFreeTx", "C14_gen_link_dispatch", "C14_gen_insertVertexOnEdge", "C14_gen_insertVertex_preserves_WF", "C14_gen_bound_single",
+        "C14_insertVertices_preserves_WF", "C14_insertVertex_preserves_WF",
                           "C14_error_leaves_map_unchanged", "C14_new_vertex_position",
                           "C14_insertVertices_beta_structure", "C14_new_darts_distinct_vertices",
                           "C14_new_vertex_position_full", "C14_insertVertex_beta_structure",
